@@ -273,6 +273,14 @@ func (cv1 *HookConfigV1) ConvertAndCheck(c *HookConfig) error {
 		}
 		groupSnapshots[kubeCfg.Group] = append(groupSnapshots[kubeCfg.Group], kubeCfg.BindingName)
 	}
+	// Binding names added by a group should be unambiguous, just like explicit includeSnapshotsFrom names.
+	for i, kubeCfg := range c.OnKubernetesEvents {
+		if snapshots, ok := groupSnapshots[kubeCfg.Group]; ok {
+			if err := CheckIncludeSnapshots(c.OnKubernetesEvents, snapshots...); err != nil {
+				return fmt.Errorf("invalid kubernetes config [%d]: group '%s': %w", i, kubeCfg.Group, err)
+			}
+		}
+	}
 	newKubeEvents := make([]htypes.OnKubernetesEventConfig, 0)
 	for _, cfg := range c.OnKubernetesEvents {
 		if snapshots, ok := groupSnapshots[cfg.Group]; ok {
